@@ -133,6 +133,41 @@ def multi_part(ctx, own_prefixes):
     return {"cases": len(outs), "verdict_histogram": hist}
 
 
+def chanfile_delivery_part(ctx, rng, own_prefixes):
+    """C02 / C03 through makefile("r") on a real popen gateway: remote code sends text items and ends; the file is read with generated
+    read(n)/readline() calls until it is exhausted; judged by spec/ChanFileDeliveryCases.tla against the reference file of spec/ChanFile.tla"""
+    import execnet
+
+    gw = execnet.makegateway("popen")
+    cases = []
+    try:
+        for i in range(16 if ctx.quick else 200):
+            items = ["".join(rng.choice("ab\n") for _ in range(rng.randint(0, 5))) for _ in range(rng.randint(1, 5))]
+            ch = gw.remote_exec("for x in channel.receive(): channel.send(x)")
+            ch.send(items)
+            f = ch.makefile("r", proxyclose=bool(i % 2))
+            ops = [rng.choice([("read", rng.randint(1, 7)), ("readline",)]) for _ in range(rng.randint(0, 4))] + [("read", 4)] * 8 + [("read", 100), ("readline",)]
+            res, exc = [], ""
+            for op in ops:
+                try:
+                    out = f.read(op[1]) if op[0] == "read" else f.readline()
+                    res.append([ord(x) for x in out])
+                except Exception as e:  # noqa: BLE001
+                    exc = type(e).__name__
+                    break
+            cases.append({"items": [[ord(x) for x in it] for it in items], "ops": [list(o) for o in ops], "results": res, "exc": exc})
+    finally:
+        gw.exit()
+        execnet.default_group.terminate(timeout=3)
+    verdicts = batch.judge("ChanFileDeliveryCases", cases, ctx.scratch)
+    hist = {}
+    for c, vd in zip(cases, verdicts):
+        hist[vd] = hist.get(vd, 0) + 1
+        if vd != "ok" and vd.startswith(tuple(own_prefixes)):
+            ctx.violation(f"{vd}: {json.dumps(c)[:400]}", c)
+    return {"cases": len(cases), "verdict_histogram": hist}
+
+
 def chanfile_error_part(ctx, rng):
     """C07 through makefile("r") on a real popen gateway: remote code sends text items and then raises; the file is read in pieces,
     then waitclose() and receive() are called on the channel; TLC requires exactly one RemoteError among all these calls"""
